@@ -47,6 +47,7 @@ static TIMEOUTS: AtomicU64 = AtomicU64::new(0);
 const SIG_I0: &str = "C15/reread-differs/I0-only";
 const SIG_HEADER_COMMENT: &str = "C15/reread-differs/block-scalar-header-comment";
 const SIG_FOLDED_LEAD: &str = "C15/reread-differs/folded-leading-blank-lines";
+const SIG_FOLDED_KEEP: &str = "C15/reread-differs/folded-keep-trailing-line-break-added";
 
 #[derive(Clone, Debug)]
 pub struct Case {
@@ -291,6 +292,7 @@ fn diff(a: &J, b: &J, p: &mut Vec<Seg>) -> Option<Diff> {
                 // trailing line breaks: a comment was written where it becomes content
                 (J::Str(s), J::Str(t)) if comment_spliced(s, t) => "str:comment-text-became-content".to_string(),
                 (J::Str(s), J::Str(t)) if s.ends_with('\n') && s[..s.len() - 1] == **t => "str:one-trailing-line-break-lost".to_string(),
+                (J::Str(s), J::Str(t)) if s.ends_with("\n\n") && t.len() == s.len() + 1 && t.starts_with(s.as_str()) && t.ends_with('\n') => "str:one-trailing-line-break-added".to_string(),
                 (J::Str(s), J::Str(t)) if leading_breaks_multiplied(s, t) => "str:leading-line-breaks-multiplied".to_string(),
                 (J::Str(s), _) => format!("str:{}", str_class(s, false)),
                 _ => format!("{}-reads-as-{}", a.kind(), b.kind()),
@@ -570,7 +572,9 @@ fn check_once(case: &Case, indent: u8, st: &mut Stats) -> Result<Outcome, Fail> 
 /// * a string differs by a spliced comment / one lost trailing line break and the input
 ///   has a block scalar header carrying a comment → the header-comment finding;
 /// * a string differs by multiplied leading line breaks and the input has a folded block
-///   scalar → the folded-leading-blank-line finding.
+///   scalar → the folded-leading-blank-line finding;
+/// * a string ending in two or more line breaks comes back with one more and the input has
+///   a folded block scalar → the folded-keep finding.
 pub fn check_case(case: &Case, st: &mut Stats) -> Result<Outcome, Fail> {
     let f = match check_once(case, case.indent, st) {
         Err(f) => f,
@@ -601,6 +605,9 @@ pub fn check_case(case: &Case, st: &mut Stats) -> Result<Outcome, Fail> {
     if sym == "C15/reread-differs/str:leading-line-breaks-multiplied" && has_folded_header(&case.yaml) {
         return Err(rename(&f, SIG_FOLDED_LEAD, "input has a folded block scalar"));
     }
+    if sym == "C15/reread-differs/str:one-trailing-line-break-added" && has_folded_header(&case.yaml) {
+        return Err(rename(&f, SIG_FOLDED_KEEP, "input has a folded block scalar; the value ends in two or more line breaks"));
+    }
     Err(f)
 }
 
@@ -619,6 +626,8 @@ struct Avoid {
     header_comment: bool,
     /// a folded block scalar whose value starts with a line break
     folded_leading_blank: bool,
+    /// a folded block scalar whose value ends in two or more line breaks (keep chomping)
+    folded_keep: bool,
 }
 
 fn doc_opts(simple: bool) -> YOpts {
@@ -645,11 +654,12 @@ fn doc_opts(simple: bool) -> YOpts {
     o
 }
 
-/// (block scalar header with a comment, folded scalar starting with a line break) — exact,
-/// from the span table
-fn own_shapes(r: &gy::RenderedYaml) -> (bool, bool) {
+/// (block scalar header with a comment, folded scalar starting with a line break, folded
+/// scalar ending in two or more line breaks) — exact, from the span table
+fn own_shapes(r: &gy::RenderedYaml) -> (bool, bool, bool) {
     let mut header_comment = false;
     let mut folded_lead = false;
+    let mut folded_keep = false;
     for sp in &r.spans {
         if !matches!(sp.style, gy::YStyle::Literal | gy::YStyle::Folded) {
             continue;
@@ -663,10 +673,34 @@ fn own_shapes(r: &gy::RenderedYaml) -> (bool, bool) {
                 if s.starts_with('\n') {
                     folded_lead = true;
                 }
+                if s.ends_with("\n\n") {
+                    folded_keep = true;
+                }
             }
         }
     }
-    (header_comment, folded_lead)
+    (header_comment, folded_lead, folded_keep)
+}
+
+/// Documented gap #1350 (docs/compliance/yq/limitations.md "Known gap in this rule"): the
+/// streaming path prints an alias verbatim even when the selected sub-tree does not
+/// contain its anchor (`yq .b` on `a: &x 1` / `b: *x` prints `*x`). Does navigating to
+/// `path` select a sub-tree with such an alias in some document of the stream?
+fn nav_leaves_anchor_behind(r: &gy::RenderedYaml, path: &[Seg]) -> bool {
+    for sp in r.spans.iter().filter(|s| s.alias.is_some() && s.role == gy::YRole::Value && s.path.starts_with(path)) {
+        if sp.path == path {
+            return true; // the result is the alias itself
+        }
+        let name = sp.alias.as_deref();
+        // the anchor has to be printed too: strictly below the selected node (an anchor on
+        // the selected node itself is not always printed)
+        let inside = r.spans.iter().any(|a| a.doc == sp.doc && a.anchor.as_deref() == name && a.path.starts_with(path) && a.path.len() > path.len())
+            || r.containers.iter().any(|c| c.doc == sp.doc && c.anchor.as_deref() == name && c.path.starts_with(path) && c.path.len() > path.len());
+        if !inside {
+            return true;
+        }
+    }
+    false
 }
 
 struct Generated {
@@ -684,10 +718,10 @@ fn gen_case(u: &mut Src, av: Avoid) -> Generated {
     let stream = gy::gen_stream(u, &o);
     let mut rendered = gy::render(&stream, u, &o);
     for _ in 0..2 {
-        let (hc, fl) = own_shapes(&rendered);
+        let (hc, fl, fk) = own_shapes(&rendered);
         if av.header_comment && hc {
             o.comments = false;
-        } else if av.folded_leading_blank && fl {
+        } else if (av.folded_leading_blank && fl) || (av.folded_keep && fk) {
             o.block_scalars = false;
         } else {
             break;
@@ -696,7 +730,13 @@ fn gen_case(u: &mut Src, av: Avoid) -> Generated {
     }
     let hints = yqprog::hints_of(&rendered, 0);
     let mode = if want_write { ProgMode::WriteOnly } else { ProgMode::ReadOnly };
-    let prog = yqprog::gen_write(u, &stream[0], &hints, mode, simple && av.dom_quoting);
+    let mut prog = yqprog::gen_write(u, &stream[0], &hints, mode, simple && av.dom_quoting);
+    if let Some(p) = &prog.nav_path {
+        if nav_leaves_anchor_behind(&rendered, p) {
+            // documented gap #1350, not generated: select the whole document instead
+            prog = WriteProg { text: ".".into(), tags: vec!["identity", "nav-would-leave-anchor-behind(#1350)"], is_write: false, nav_path: None };
+        }
+    }
     let mut indent = match u.below(20) {
         0 => 8u8,
         1..=3 => 0,
@@ -803,8 +843,33 @@ fn matrix_prog(ctx: usize, s: &str) -> (&'static str, String) {
     }
 }
 
+/// Trigger predicates of the open DOM-emitter quoting findings: the reason (if any) why the
+/// string `s` is known to be written unquoted at `position` although it does not read back.
+/// First applicable reason in a fixed order, so the signature is a function of (position, s).
+pub fn known_quoting_gap(position: &str, s: &str) -> Option<&'static str> {
+    let key = position.starts_with("key");
+    let flow = position.ends_with("flow");
+    if s.starts_with(' ') {
+        return Some("leading-space");
+    }
+    if key && s.contains('\t') {
+        return Some("tab");
+    }
+    if !key && (matches!(str_class(s, false), "hex-int" | "octal-int") || matches!(s, "+.inf" | "+.Inf" | "+.INF")) {
+        return Some("non-decimal-number");
+    }
+    if key && (s.starts_with('|') || s.starts_with('>')) {
+        return Some("block-scalar-indicator-start");
+    }
+    if flow && s.contains([',', ']', '}']) {
+        return Some("flow-terminator");
+    }
+    None
+}
+
 /// One string through one position of the DOM emitter; a failure is attributed to
-/// (position, class of the string) whatever its symptom.
+/// (position, known quoting gap of the string) whatever its symptom; a failing string
+/// without a known gap keeps a signature of its own (`unexplained:<class>`).
 fn matrix_case(u: &mut Src, st: &mut Stats) -> Result<(), Fail> {
     let o = YOpts::full();
     let ctx = u.below(7);
@@ -817,6 +882,9 @@ fn matrix_case(u: &mut Src, st: &mut Stats) -> Result<(), Fail> {
     let class = str_class(&s, false);
     st.class(ctx_name);
     st.class(&format!("class:{}", class));
+    if let Some(g) = known_quoting_gap(ctx_name, &s) {
+        st.class(&format!("known-gap:{}/{}", ctx_name, g));
+    }
     st.nontrivial(hash_str(&format!("{}|{}", ctx, s)));
     st.sample(class, || json!({"string": s, "position": ctx_name, "program": program}));
     let case = Case { yaml: MATRIX_DOC.as_bytes().to_vec(), program, indent: 2 };
@@ -834,7 +902,11 @@ fn matrix_case(u: &mut Src, st: &mut Stats) -> Result<(), Fail> {
                 m.insert("symptom".into(), json!(f.sig));
                 m.insert("string".into(), json!(s));
             }
-            let f = Fail::new(format!("C15/dom-quoting/{}/{}", ctx_name, class), d);
+            let reason = match known_quoting_gap(ctx_name, &s) {
+                Some(g) => g.to_string(),
+                None => format!("unexplained:{}", class),
+            };
+            let f = Fail::new(format!("C15/dom-quoting/{}/{}", ctx_name, reason), d);
             if survey(&f, describe(&case), st) {
                 return Ok(());
             }
@@ -875,6 +947,7 @@ pub fn run(cx: &mut Ctx) {
     cx.assume("the `succinctly` binary at $VH_CLI is built from /repo's working tree (run.sh rebuilds it); the library linked into the harness is the same tree");
     cx.assume("O-jsonval (harness JSON parser) reads the CLI's JSON output; numbers compare as doubles (documents and programs are integer-preserving, so no float spelling is involved)");
     cx.assume("the re-read uses the repository's own loader (that is what the statement says: 'loads back'); its agreement with the YAML specification is C14's subject");
+    cx.assume("documented and therefore not generated: `--sort-keys` and navigation into a sub-tree whose aliases point outside it (streaming-path alias gap #1350, docs/compliance/yq/limitations.md), keys spelled `<<` (merge keys), root scalar results (printed unwrapped)");
     cx.assume("G-yaml only emits documents the repository documents as supported; shapes of the open loader findings (C14) are not generated");
     if !cli::cli_available() {
         cx.infra(format!("CLI binary not found at {}", cli::cli_path()));
@@ -891,6 +964,7 @@ pub fn run(cx: &mut Ctx) {
         dom_quoting: cx.known.iter().any(|k| k.status == "known" && k.signature.starts_with("C15/dom-quoting/")),
         header_comment: cx.is_known(SIG_HEADER_COMMENT),
         folded_leading_blank: cx.is_known(SIG_FOLDED_LEAD),
+        folded_keep: cx.is_known(SIG_FOLDED_KEEP),
     };
     let mut avoided = vec![];
     if av.i0_writes {
@@ -904,6 +978,9 @@ pub fn run(cx: &mut Ctx) {
     }
     if av.folded_leading_blank {
         avoided.push("a folded block scalar starting with a line break");
+    }
+    if av.folded_keep {
+        avoided.push("a folded block scalar ending in two or more line breaks");
     }
     if !avoided.is_empty() {
         cx.note(format!("open findings: `reread` does not generate {}; `open-finding-shapes` does", avoided.join("; ")));
